@@ -626,7 +626,7 @@ package tsm1
 // still occur there; what is left is removed from the index. Files outside the deleted time range are exactly the
 // ones that keep a series alive, so the pass may not skip a file: each invocation consults the file's key index.
 // (Thin: the merge-join inside the pass is not under contract.)
-//@ func (*Engine).deleteSeriesRange$4
+//@ func (*Engine).deleteSeriesRange$6
 //@   props C10
 //@   nosafety
 //@   ghost consulted bool = false
